@@ -140,6 +140,36 @@ def case_str(case: Dict[str, Any]) -> str:
     return f"{case['country']}/{case['lang']} {case['schedule_name']} -f {case['from']} -t {case['to']}: {case['label']}"
 
 
+def bundled_cases(reports: Sequence[str], methods: Sequence[str] = ("fifo", "hifo"), mode: str = "few", country: str = "us", lang: str = "en",
+                  allow_negative: bool = True, to_only: bool = False) -> List[Dict[str, Any]]:
+    """The DATA of the 9 inputs bundled with RP2 (all asset sheets of a file in one run, rewritten in the canonical column layout; the files themselves
+    go through the command line in C16) x methods x date windows, as cases for the generator seam. Asset names become B1..B4, exchanges X1..X4."""
+    from rp2verif import bundled
+
+    out = []
+    for fname, assets in bundled.load().items():
+        names = sorted(assets)
+        amap = {a: f"B{i + 1}" for i, a in enumerate(names)}
+        case_assets: Dict[str, Any] = {}
+        sheets: Dict[str, Any] = {}
+        for a in names:
+            # the bundled rows carry no unique ids: give every row one (the report checks identify transactions by it)
+            sheets[amap[a]], case_assets[amap[a]] = to_sheet([dict(s, unique_id=s.get("unique_id") or f"{amap[a]}-{s['table']}-{s['row']}") for s in assets[a]], amap[a])
+        wins = windows(event_dates(list(case_assets.values())), mode)
+        if to_only:
+            wins = [w for w in wins if w[0] is None]
+        own = bundled.schedule_of(fname)
+        for m in list(methods) + (["own"] if own else []):
+            sched = [(1970, m)] if m != "own" else [(int(y), x) for y, x in own]
+            if m == "own":
+                sched = [(1970, sched[0][1])] + sched  # the file's schedule starts in 2020; earlier years take its first method
+            for w in wins:
+                out.append({"label": f"data of the bundled input {fname}.ods ({len(names)} assets), {m if m != 'own' else 'its own schedule'} -f {w[0]} -t {w[1]}", "bundled": fname,
+                            "hist": (), "second": None, "schedule_name": m if m != "own" else "the file's own schedule", "assets": case_assets, "sheets": sheets, "schedule": sched, "from": w[0], "to": w[1], "country": country, "lang": lang,
+                            "reports": list(reports), "allow_negative": allow_negative, "ini_kw": {"assets": ["B1", "B2", "B3", "B4"], "exchanges": ["X1", "X2", "X3", "X4"]}})
+    return out
+
+
 def jsonable(case: Dict[str, Any]) -> Dict[str, Any]:
     c = dict(case)
     c["from"] = case["from"].isoformat() if case.get("from") else None
